@@ -288,6 +288,25 @@ def run_shard(ctx):
                 if not form.startswith("dx"):
                     case["twin"] = twin_doc
                 check_case(ctx, case)
+    # size deltas on every constraint pair: whatever dw / dh / dwh do to an element whose size follows from, say, its two
+    # corners, they must do the same whether the corners are written xy1/xy2 (shorthand) or x1/y1/x2/y2 (longhand)
+    for shape in SHAPES:
+        for px in PAIRS:
+            for py in PAIRS:
+                structural += 1
+                if not ctx.mine(structural):
+                    continue
+                for _ in range(max(2, k // 8)):
+                    box = sample_box(rng, shape)
+                    dw, dh = F(rng.randint(0, 40), 4), F(rng.randint(0, 40), 4)
+                    delta = rng.choice([[("dwh", sep_join(rng, fmt(dw), fmt(dh)))], [("dw", fmt(dw)), ("dh", fmt(dh))], [("dwh", fmt(dw))], [("dw", fmt(dw))], [("dh", fmt(dh))],
+                                        [("dwh", "%d%%" % rng.choice([50, 150, 200]))]])
+                    a, b = rng.sample(["long", "alt", "short", "alt-x", "alt-y"], 2)
+                    doc = make_doc(shape, build_attrs(rng, shape, px, py, box, a) + delta)
+                    twin_doc = make_doc(shape, build_attrs(rng, shape, px, py, box, b) + delta)
+                    case = dict(input=doc.encode(), twin=twin_doc.encode(), shape=shape, expected={},
+                                sig="%s/size-delta-on-%s%s-%s%s" % (shape, px[0], px[1], py[0], py[1]), feats=["delta.size-on-pairs", "shape." + shape, "spelling.%s-vs-%s" % (a, b)])
+                    check_case(ctx, case)
     # circle-specific sufficient forms: one full pair on one axis + a single anchor on the other
     for (pair_axis, px) in itertools.product("xy", PAIRS):
         for anchor in ("s", "c", "e"):
